@@ -104,9 +104,47 @@ def sensitivity(props, only=None, runs=None):
     return ok
 
 
+def seeded(props, only=None):
+    """Apply every change kept under /verif/seeded/<id>/patch.diff (written by independent sub-agents) to a scratch
+    copy of the working tree; the quick check of its property must exit 1."""
+    import json
+    ok = True
+    base = os.path.join(core.VERIF, "seeded")
+    for sid in sorted(os.listdir(base)):
+        meta = json.load(open(os.path.join(base, sid, "meta.json")))
+        prop = meta["property"]
+        if prop not in props or (only and sid not in only):
+            continue
+        tmp = tempfile.mkdtemp(prefix="verif_seed_")
+        t0 = time.time()
+        try:
+            shutil.copytree(os.path.join(core.REPO, "eaopack"), os.path.join(tmp, "eaopack"),
+                            ignore=shutil.ignore_patterns("__pycache__"))
+            p = subprocess.run(["git", "apply", "--include=eaopack/*", os.path.join(base, sid, "patch.diff")], cwd=tmp,
+                               capture_output=True, text=True)
+            if p.returncode != 0:
+                print("seeded %s: patch does not apply to the current tree (%s)" % (sid, p.stderr.strip()[:200]))
+                ok = False
+                continue
+            rc, out = _run_check(prop, {"EAO_REPO": tmp}, ["--tier", "quick", "--no-evidence"])
+        finally:
+            shutil.rmtree(tmp, ignore_errors=True)
+        line = [l for l in out.splitlines() if l.startswith("minimised") or l.startswith("regression")]
+        nruns = [l for l in out.splitlines() if l.startswith(prop + ":")]
+        print("seeded %s (%s): exit %d in %.0f s %s %s" % (sid, prop, rc, time.time() - t0, "CAUGHT" if rc == 1 else "MISSED", (nruns or [""])[0]))
+        if rc == 1 and line:
+            print("    " + line[0][:260])
+        if rc != 1:
+            ok = False
+        for f in os.listdir(os.path.join(core.VERIF, "replays")):
+            if f.startswith(prop + "-"):
+                os.remove(os.path.join(core.VERIF, "replays", f))
+    return ok
+
+
 def main(argv):
     ap = argparse.ArgumentParser(prog="check selftest")
-    ap.add_argument("what", choices=["determinism", "sensitivity", "all"])
+    ap.add_argument("what", choices=["determinism", "sensitivity", "seeded", "all"])
     ap.add_argument("--props", default=",".join(PROPS))
     ap.add_argument("--runs", type=int, default=None)
     ap.add_argument("--only", default=None)
@@ -117,5 +155,7 @@ def main(argv):
         ok = determinism(props, a.runs or 64) and ok
     if a.what in ("sensitivity", "all"):
         ok = sensitivity(props, only=(a.only.split(",") if a.only else None), runs=a.runs if a.what == "sensitivity" else None) and ok
+    if a.what in ("seeded", "all"):
+        ok = seeded(props, only=(a.only.split(",") if a.only else None)) and ok
     print("selftest %s" % ("passed" if ok else "FAILED"))
     return 0 if ok else 2
